@@ -21,6 +21,8 @@ SHARED = set()  # product roots whose files are ONE file object per path, handed
 _shared = {}
 JITTER = [0.0]  # seconds slept at the start of every read (after the seek that positioned it): lets the threads an implementation may
 #                 use internally interleave on a handle they share; harmless for a single reader
+BIGREAD = {}  # path -> [limit, times fired]: a read request above `limit` bytes fails with MemoryError (a memory-limited process, a container
+#                 cgroup): persistent for big requests, small requests are served
 FLAKY = []  # armed one-shot transient faults: dict(path, op "read" | "cat", nth, consume, exc); see arm_fault()
 DENY = set()  # product roots under which a MISSING object is reported as PermissionError (an object store that answers 403 for
 #               keys that do not exist when listing is not permitted) instead of FileNotFoundError
@@ -141,6 +143,13 @@ class TracedFile(io.BytesIO):
             import time
 
             time.sleep(JITTER[0])
+        if BIGREAD and self._path in BIGREAD:
+            lim = BIGREAD[self._path]
+            n_ = (len(self.getvalue()) - self.tell()) if size is None or size < 0 else size
+            if n_ > lim[0]:
+                lim[1] += 1
+                _emit({"e": "fault", "h": self._h, "f": base(self._path), "pos": self.tell(), "req": -1 if size is None else size, "moved": 0})
+                raise MemoryError(f"cannot allocate {n_} bytes (limit injected by the tracing filesystem)")
         flt = _fault_for(self._path, "read") if FLAKY else None
         if flt is not None:
             pos = self.tell()
